@@ -8,6 +8,7 @@ SPEC = dict(
     design_ref="DESIGN.md §3 C16",
     assumptions=[
         "execute callbacks do not panic; they may call Add on their own executor (retry pattern, TestVerifC16Reentrant) as long as that Add stays below the threshold - a threshold-reaching Add waits for the background flusher by design and can never complete from inside the flusher's own execute; the random/staged families use callbacks that do not call back",
+        "a batch handed to the execute function belongs to it: the callback may keep the slice (record it, queue it to a worker), so every recording callback keeps the slice it was handed and the monitor re-reads it after the scenario's last Wait; the library must not write to it or reuse its backing array (signature C16:batch-mutated-after-execute)",
         "task sizes of the chunk executor are non-negative (0 included: such a task never reaches the byte limit by itself and is run by tick/Flush/Wait/retirement); byte limit and bulk task count are >= 1",
         "tick liveness is asserted only for three ticks that the flusher actually took after Add returned (an offered tick that is not taken within 50 ms is dropped and counts for nothing)",
         "'added before Wait' means: Add returned, then a stamp was drawn from the shared atomic sequence, then a later stamp was drawn, then Wait was called (same or different goroutine)",
